@@ -1,3 +1,4 @@
+import Proofs.C11Pins
 import Proofs.C11Counts
 import Proofs.C11Exit
 import Proofs.C11Range
@@ -670,3 +671,15 @@ example : (carried (run 100 ⟨[], [⟨.always, some [.emit 0]⟩], none⟩ (w0.
   decide +kernel
 
 end GoawkModel.C11.Props
+
+/-! ## Pinned source text (regenerated tie; extract/pins.go, tools/repin.py)
+An edit of one of these functions in /repo breaks the matching obligation: the model below was written from the text
+in `Proofs.C11Pins` and has to be compared with the new text before it is re-pinned. -/
+namespace GoawkModel.Pins.C11
+theorem pin_nextLine : Generated.C11Pins.nextLine = Expected.nextLine := rfl
+theorem pin_setFile : Generated.C11Pins.setFile = Expected.setFile := rfl
+theorem pin_executeAll : Generated.C11Pins.executeAll = Expected.executeAll := rfl
+theorem pin_execActions : Generated.C11Pins.execActions = Expected.execActions := rfl
+theorem pin_list : Generated.C11Pins.pinned = Expected.pinned := rfl
+end GoawkModel.Pins.C11
+-- end of pinned source text
